@@ -17,6 +17,7 @@ package utils
 import (
 	"bytes"
 	"encoding/json"
+	"math/big"
 	"strconv"
 	"strings"
 
@@ -218,6 +219,20 @@ func ToGNMITypedValue(v *sdcpb.TypedValue) *gnmi.TypedValue {
 	return nil
 }
 
+// equalDecimal64 compares the numbers two Decimal64 denote: 1.5 is {15, 1} as well as {150, 2}
+func equalDecimal64(d1, d2 *sdcpb.Decimal64) bool {
+	if d1.GetPrecision() == d2.GetPrecision() {
+		return d1.GetDigits() == d2.GetDigits()
+	}
+	if d1.GetPrecision() > d2.GetPrecision() {
+		d1, d2 = d2, d1
+	}
+	// scale the one with less fraction digits up, the digits may exceed 64 bit then
+	scaled := new(big.Int).Exp(big.NewInt(10), big.NewInt(int64(d2.GetPrecision()-d1.GetPrecision())), nil)
+	scaled.Mul(scaled, big.NewInt(d1.GetDigits()))
+	return scaled.Cmp(big.NewInt(d2.GetDigits())) == 0
+}
+
 func EqualTypedValues(v1, v2 *sdcpb.TypedValue) bool {
 	if v1 == nil {
 		return v2 == nil
@@ -312,10 +327,7 @@ func EqualTypedValues(v1, v2 *sdcpb.TypedValue) bool {
 			if v1 == nil || v2 == nil {
 				return false
 			}
-			if v1.DecimalVal.GetDigits() != v2.DecimalVal.GetDigits() {
-				return false
-			}
-			return v1.DecimalVal.GetPrecision() == v2.DecimalVal.GetPrecision()
+			return equalDecimal64(v1.DecimalVal, v2.DecimalVal)
 		default:
 			return false
 		}
